@@ -187,20 +187,58 @@ func Gen(t *rapid.T, tier string) any {
 	if ivl == 0 {
 		ivl = 1
 	}
+	// side tracks which locations probably name a list, and of which kind
+	// (assuming downloads succeed), so that set_url / remove mostly hit one.
+	side := map[int]bool{}
+	for _, il := range sc.Init {
+		side[il.U] = il.W
+	}
+	pick := func(label string) int {
+		u := rapid.IntRange(0, len(urls)-1).Draw(t, label)
+		if _, ok := side[u]; ok || rapid.IntRange(0, 4).Draw(t, label+"_any") == 0 {
+			return u
+		}
+		for k := 0; k < len(urls); k++ {
+			if _, ok := side[(u+k)%len(urls)]; ok {
+				return (u + k) % len(urls)
+			}
+		}
+		return u
+	}
+	sideOf := func(u int) bool {
+		if w, ok := side[u]; ok && rapid.IntRange(0, 7).Draw(t, "wrong_side") != 0 {
+			return w
+		}
+		return rapid.IntRange(0, 2).Draw(t, "allow") == 0
+	}
 	for i := 0; i < n; i++ {
 		var op Op
 		plan := true
 		switch rapid.SampledFrom(opKinds).Draw(t, "kind") {
 		case "add":
 			op = Op{K: "add", U: rapid.IntRange(0, len(urls)-1).Draw(t, "url"), W: rapid.IntRange(0, 2).Draw(t, "allow") == 0}
+			if _, ok := side[op.U]; !ok {
+				side[op.U] = op.W
+			}
 		case "seturl":
-			op = Op{K: "seturl", U: rapid.IntRange(0, len(urls)-1).Draw(t, "url"), U2: rapid.IntRange(0, len(urls)-1).Draw(t, "url2"),
-				W: rapid.IntRange(0, 2).Draw(t, "allow") == 0, En: rapid.IntRange(0, 3).Draw(t, "enabled") != 0}
-			if rapid.IntRange(0, 1).Draw(t, "same_url") == 0 {
-				op.U2 = op.U
+			op = Op{K: "seturl", U: pick("url"), En: rapid.IntRange(0, 3).Draw(t, "enabled") != 0}
+			op.W = sideOf(op.U)
+			op.U2 = op.U
+			if rapid.IntRange(0, 1).Draw(t, "new_url") == 0 {
+				op.U2 = rapid.IntRange(0, len(urls)-1).Draw(t, "url2")
+			}
+			if w, ok := side[op.U]; ok && w == op.W {
+				if _, taken := side[op.U2]; !taken {
+					delete(side, op.U)
+					side[op.U2] = w
+				}
 			}
 		case "remove":
-			op = Op{K: "remove", U: rapid.IntRange(0, len(urls)-1).Draw(t, "url"), W: rapid.IntRange(0, 2).Draw(t, "allow") == 0}
+			op = Op{K: "remove", U: pick("url")}
+			op.W = sideOf(op.U)
+			if w, ok := side[op.U]; ok && w == op.W {
+				delete(side, op.U)
+			}
 			plan = false
 		case "refresh":
 			op = Op{K: "refresh", W: rapid.IntRange(0, 2).Draw(t, "allow") == 0}
